@@ -119,6 +119,49 @@ type ModemEnd struct {
 	FlushCalls int
 	// TxQueryDelay makes TxBufferLen slow, like a modem that has to be asked over a serial line.
 	TxQueryDelay time.Duration
+	// TxHold models an ARQ modem's turn-around: everything written in one burst (all writes since
+	// this end last read something) stays in the reported transmit buffer until TxHold has passed
+	// since the first write of the burst; Flush blocks that long. The link itself is unaffected.
+	TxHold     time.Duration
+	held       int
+	burstStart time.Time
+}
+
+func (m *ModemEnd) Write(p []byte) (int, error) {
+	if m.TxHold > 0 {
+		m.mu.Lock()
+		if m.held == 0 {
+			m.burstStart = time.Now()
+		}
+		m.held += len(p)
+		m.mu.Unlock()
+	}
+	return m.End.Write(p)
+}
+
+func (m *ModemEnd) Read(p []byte) (int, error) {
+	n, err := m.End.Read(p)
+	if m.TxHold > 0 && n > 0 {
+		m.mu.Lock()
+		m.held = 0 // the peer answered: the burst is over
+		m.mu.Unlock()
+	}
+	return n, err
+}
+
+// heldNow returns the bytes of the current burst still held by the modem and how long they will be.
+func (m *ModemEnd) heldNow() (int, time.Duration) {
+	m.mu.Lock()
+	defer m.mu.Unlock()
+	if m.held == 0 {
+		return 0, 0
+	}
+	left := m.TxHold - time.Since(m.burstStart)
+	if left <= 0 {
+		m.held = 0
+		return 0, 0
+	}
+	return m.held, left
 }
 
 // New creates a link. Record enables transcript recording.
@@ -400,10 +443,11 @@ func (m *ModemEnd) TxBufferLen() int {
 	if m.TxQueryDelay > 0 {
 		time.Sleep(m.TxQueryDelay)
 	}
+	held, _ := m.heldNow()
 	l := m.l
 	l.mu.Lock()
 	defer l.mu.Unlock()
-	return len(l.q[m.dirOut()])
+	return max(held, len(l.q[m.dirOut()]))
 }
 
 // Flush blocks until the peer has read everything this end wrote (or the link is gone).
@@ -411,6 +455,9 @@ func (m *ModemEnd) Flush() error {
 	m.mu.Lock()
 	m.FlushCalls++
 	m.mu.Unlock()
+	if _, left := m.heldNow(); left > 0 {
+		time.Sleep(left)
+	}
 	l := m.l
 	l.mu.Lock()
 	defer l.mu.Unlock()
